@@ -542,6 +542,7 @@ type gen struct {
 	bacct map[int]int
 	bmax  map[int]uint64
 	bspent map[int]uint64
+	bused  map[int]usage6
 	st1   []string
 	st2   []string
 }
@@ -756,29 +757,43 @@ func (g *gen) step() {
 		}
 		u := g.usage(total, g.shuffledCats(ncat))
 		w.doSpend(g.tr, i, u)
-		if g.open[i] && g.bspent[i]+u.total3() <= g.bmax[i] {
+		if g.bspent[i]+u.total3() <= g.bmax[i] {
 			g.bspent[i] += u.total3()
+			used := g.bused[i]
+			for c := range u {
+				used[c] += u[c]
+			}
+			g.bused[i] = used
 		}
 	case "refund":
 		if len(w.bud) == 0 {
 			return
 		}
 		i := g.pickBudget(r.Chance(9, 10))
-		var total uint64
-		if g.bspent[i] > 0 {
-			total = uint64(1 + r.Intn(int(g.bspent[i])))
-		}
-		if r.Chance(1, 5) {
-			total++
-		}
-		u := g.usage(total, g.shuffledCats(6))
-		w.doRefund(g.tr, i, u)
-		// the harness does not track per-category spending; resynchronise from the budget itself
-		if b := w.budgetAt(i); b != nil && g.open[i] {
-			var rem types.Currency
-			if p, _ := vhlib.Try(func() { rem = b.Remaining() }); !p {
-				g.bspent[i] = g.bmax[i] - rem.Lo
+		// mostly a part of what was spent per category (valid), sometimes more (documented panic)
+		var u usage6
+		used := g.bused[i]
+		for c := range u {
+			if used[c] > 0 && r.Chance(2, 3) {
+				u[c] = uint64(1 + r.Intn(int(used[c])))
 			}
+		}
+		if r.Chance(1, 6) {
+			u[r.Intn(6)] += uint64(1 + r.Intn(3))
+		}
+		ok := g.open[i]
+		for c := range u {
+			if u[c] > used[c] {
+				ok = false
+			}
+		}
+		w.doRefund(g.tr, i, u)
+		if ok {
+			for c := range u {
+				used[c] -= u[c]
+			}
+			g.bused[i] = used
+			g.bspent[i] -= u.total3()
 		}
 	case "commit":
 		if len(w.bud) == 0 {
@@ -875,7 +890,7 @@ func (g *gen) step() {
 }
 
 func genHistory(t *testing.T, tr *vhlib.Trace, r *vhlib.Rand, n int) {
-	g := &gen{r: r, tr: tr, open: map[int]bool{}, bacct: map[int]int{}, bmax: map[int]uint64{}, bspent: map[int]uint64{}}
+	g := &gen{r: r, tr: tr, open: map[int]bool{}, bacct: map[int]int{}, bmax: map[int]uint64{}, bspent: map[int]uint64{}, bused: map[int]usage6{}}
 	g.nA = 1 + r.Intn(maxAccts)
 	g.n1 = 1 + r.Intn(4)
 	g.n2 = r.Intn(4)
